@@ -56,3 +56,100 @@ package queue
 //@   ensures len(q.items) == 0
 
 //@ guards queue.Queue.mu : items, elems(items)
+
+// ---------------------------------------------------------------- linked queue (C05, C01, C02)
+//
+// The queue holds l.n elements; for l.n > 0 they are the values of the l.n nodes of l.list, front first. For
+// l.n == 0 the list still holds leftover nodes that no operation looks at. seq/idx/cnt are the ghost views of the
+// list (see package list).
+
+//@ pred lqInv(l *LQueue, seq map[int]*list.DoubleNode, idx map[*list.DoubleNode]int, cnt int) := l.list != nil && l.n >= 0 && (l.n > 0 ==> cnt == l.n) && dlInv(l.list, seq, idx, cnt)
+
+//@ func queue.NewLinked
+//@   property C05 C01
+//@   ghost nseq map[int]*list.DoubleNode
+//@   ghost nidx map[*list.DoubleNode]int
+//@   ghost-at InitDList#1: nseq = lambda i int :: &$ret.DoubleNode
+//@   ghost-at InitDList#1: nidx = lambda x *list.DoubleNode :: 0
+//@   ensures result != nil && fresh(result) && result.n == 1 && lqInv(result, nseq, nidx, 1) && nseq[0].Value == t
+
+//@ func (*queue.LQueue).Enqueue
+//@   property C05 C01 C02
+//@   lock l.mu : none
+//@   ghost-param seq map[int]*list.DoubleNode
+//@   ghost-param idx map[*list.DoubleNode]int
+//@   ghost-param cnt int
+//@   ghost nseq map[int]*list.DoubleNode = seq
+//@   ghost nidx map[*list.DoubleNode]int = idx
+//@   requires lqInv(l, seq, idx, cnt)
+//@   modifies l.n, l.list, all list.DoubleNode.Value, all list.DoubleNode.next, all list.DoubleNode.prev
+//@   ghost-at InitDList#1: nseq = lambda i int :: &$ret.DoubleNode
+//@   ghost-at InitDList#1: nidx = lambda x *list.DoubleNode :: 0
+//@   ensures l.n == old(l.n) + 1 && lqInv(l, nseq, nidx, l.n) && nseq[l.n - 1].Value == item
+//@   ensures forall i int :: { nseq[i] } 0 <= i && i < old(l.n) ==> nseq[i].Value == old(seq[i].Value)
+//@   call Append#1 ghost seq = seq; idx = idx; cnt = cnt
+//@   release-views seq = nseq; idx = nidx; cnt = l.n
+
+//@ func (*queue.LQueue).Dequeue
+//@   property C05 C01 C02
+//@   lock l.mu : none
+//@   ghost-param seq map[int]*list.DoubleNode
+//@   ghost-param idx map[*list.DoubleNode]int
+//@   ghost-param cnt int
+//@   ghost nseq map[int]*list.DoubleNode = seq
+//@   ghost nidx map[*list.DoubleNode]int = idx
+//@   requires lqInv(l, seq, idx, cnt)
+//@   modifies l.n, all list.DoubleNode.Value, all list.DoubleNode.next, all list.DoubleNode.prev
+//@   ensures old(l.n) == 0 ==> item == zero && l.n == 0 && lqInv(l, seq, idx, cnt)
+//@   ensures old(l.n) > 0 ==> item == old(seq[0].Value) && l.n == old(l.n) - 1
+//@   ensures old(l.n) == 1 ==> lqInv(l, seq, idx, 1)
+//@   ensures old(l.n) > 1 ==> lqInv(l, nseq, nidx, l.n) && forall i int :: { nseq[i] } 0 <= i && i < l.n ==> nseq[i].Value == old(seq[i + 1].Value)
+//@   call Shift#1 ghost seq = seq; idx = idx; cnt = cnt
+//@   release-views seq = (old(l.n) > 1 ? nseq : seq); idx = (old(l.n) > 1 ? nidx : idx); cnt = (old(l.n) > 1 ? l.n : (old(l.n) == 1 ? 1 : cnt))
+
+//@ func (*queue.LQueue).Peek
+//@   property C05 C01 C02
+//@   lock l.mu : none
+//@   ghost-param seq map[int]*list.DoubleNode
+//@   ghost-param idx map[*list.DoubleNode]int
+//@   ghost-param cnt int
+//@   requires lqInv(l, seq, idx, cnt)
+//@   ensures l.n == 0 ==> result == zero
+//@   ensures l.n > 0 ==> result == seq[0].Value
+//@   call First#1 ghost seq = seq; idx = idx; cnt = cnt
+
+//@ func (*queue.LQueue).Search
+//@   property C05 C01 C02
+//@   lock l.mu : none
+//@   ghost-param seq map[int]*list.DoubleNode
+//@   ghost-param idx map[*list.DoubleNode]int
+//@   ghost-param cnt int
+//@   requires lqInv(l, seq, idx, cnt)
+//@   modifies all list.DoubleNode.Value, all list.DoubleNode.next, all list.DoubleNode.prev
+//@   ensures result <==> (exists i int :: 0 <= i && i < l.n && seq[i].Value == item)
+//@   ensures lqInv(l, seq, idx, cnt) && l.n == old(l.n) && dlVals(seq, cnt)
+//@   call Find#1 ghost seq = seq; idx = idx; cnt = cnt
+
+//@ func (*queue.LQueue).Size
+//@   property C05 C01 C02
+//@   lock l.mu : none
+//@   ghost-param seq map[int]*list.DoubleNode
+//@   ghost-param idx map[*list.DoubleNode]int
+//@   ghost-param cnt int
+//@   requires lqInv(l, seq, idx, cnt)
+//@   ensures result == l.n && result >= 0
+
+//@ func (*queue.LQueue).Clear
+//@   property C05 C01 C02
+//@   lock l.mu : none
+//@   ghost-param seq map[int]*list.DoubleNode
+//@   ghost-param idx map[*list.DoubleNode]int
+//@   ghost-param cnt int
+//@   requires lqInv(l, seq, idx, cnt)
+//@   modifies l.n, all list.DoubleNode.next, all list.DoubleNode.prev
+//@   ensures l.n == 0 && lqInv(l, seq, idx, 1)
+//@   call Clear#1 ghost seq = seq; idx = idx; cnt = cnt
+//@   release-views cnt = 1
+
+//@ guards queue.LQueue.mu : list, n, all list.DList, all list.DoubleNode
+//@ lockinv queue.LQueue : lqInv(self, seq, idx, cnt)
